@@ -21,6 +21,8 @@ Definition ecase_mon_C03s (c : ecase) :=
 Definition ecase_mon_C06 (c : ecase) := mon_C06 (ec_prog c) (ec_cfg c) (ec_trace c).
 Definition ecase_mon_C07 (c : ecase) := mon_C07 (ec_cfg c) (ec_trace c).
 Definition ecase_mon_C13 (c : ecase) := mon_C13 (ec_prog c) (ec_cfg c) (ec_trace c).
+Definition ecase_mon_C13s (c : ecase) :=
+  match ec_final c with Some r => mon_C13_status (ec_prog c) (ec_cfg c) (ec_trace c) r | None => true end.
 Definition ecase_mon_C14 (c : ecase) := mon_C14 (ec_prog c) (ec_cfg c) (ec_complete c) (ec_trace c).
 
 (* liveness at quiescent points: where the implementation is stuck the model must be stuck too *)
